@@ -174,7 +174,70 @@ func c05InFlight(cfg Config, res *Result) {
 	}
 }
 
+// c05FailedLoads: a cache lookup that failed leaves nothing behind that later lookups of the
+// same name (alone or several at once) could wait for or trip over
+func c05FailedLoads(cfg Config, res *Result) {
+	for _, bad := range []string{"", "{% if %}"} { // missing, or present but not compiling
+		for _, k := range []int{1, 4} {
+			ml := &memLoader{files: map[string]string{"ok.tpl": "fine"}, id: "0"}
+			if bad != "" {
+				ml.files["late.tpl"] = bad
+			}
+			set := pongo2.NewSet("fl", ml)
+			res.Cases++
+			res.DistinctNontrivial++
+			// first round: k lookups at once, all must fail
+			run := func(round string, wantOK bool) bool {
+				type r struct {
+					ok  bool
+					out string
+				}
+				ch := make(chan r, k)
+				for j := 0; j < k; j++ {
+					go func() {
+						defer func() {
+							if p := recover(); p != nil {
+								ch <- r{false, "panic " + fmt.Sprint(p)}
+							}
+						}()
+						tpl, err := set.FromCache("late.tpl")
+						if err != nil || tpl == nil {
+							ch <- r{false, fmt.Sprint("error ", err)}
+							return
+						}
+						ch <- r{true, execOnce(tpl, nil).String()}
+					}()
+				}
+				for j := 0; j < k; j++ {
+					select {
+					case x := <-ch:
+						if x.ok != wantOK || (wantOK && x.out != "ok "+hxb("now it is there")) {
+							res.add(Finding{Kind: "oracle", Proj: "race", Sig: "c05-lookup-after-failed-load", Case: fmt.Sprintf("%d concurrent FromCache(late.tpl), %s (first content %q)", k, round, bad), Impl: x.out, Model: fmt.Sprint("succeeds=", wantOK)})
+							return false
+						}
+					case <-time.After(8 * time.Second):
+						res.add(Finding{Kind: "oracle", Proj: "race", Sig: "c05-lookup-hangs", Case: fmt.Sprintf("%d concurrent FromCache(late.tpl), %s (first content %q)", k, round, bad), Impl: "no answer within 8 s", Model: "every call returns"})
+						return false
+					}
+				}
+				return true
+			}
+			if !run("while the template cannot be loaded", false) {
+				continue
+			}
+			ml.mu.Lock()
+			ml.files["late.tpl"] = "now it is there"
+			ml.mu.Unlock()
+			if !run("after the template was put in place", true) {
+				continue
+			}
+			run("once more, from the cache", true)
+		}
+	}
+}
+
 func suiteC05(cfg Config, res *Result) {
+	c05FailedLoads(cfg, res)
 	c05FailSites(cfg, res, NewRNG(cfg.Seed^0xfa115))
 	c05InFlight(cfg, res)
 	res.Rule = "failing executions: the first failures of every failing filter site happen from 6 goroutines at once, in different templates and lines, each error naming its own site; 1200 executions parked at the same moment inside an include / macro / loop (no per-execution limit is shared between executions); grammar-generated programs over every modelled tag (with includes, lazy includes, macros, cycle, ifchanged, whitespace options) compiled once and executed from k in {2,4,8} goroutines at once under GOMAXPROCS in {1,2,8}, with equal and different contexts, while other goroutines compile/fetch from the same set (FromString, FromFile, FromCache); each goroutine through one of Execute / ExecuteBytes / ExecuteWriter / ExecuteWriterUnbuffered; oracle: every output equals the sequential output for its context, the bytes ExecuteBytes returned are still the same after further executions, and the race detector (harness built with -race) reports nothing; non-trivial = all; distinct by program"
